@@ -245,7 +245,48 @@ def names_lifecycle(s):
     d(op='traits_list', v=39, fkind='startswith', names=[], prefix='CUSTOM_', assoc='')
 
 
+def sync_histories(s):
+    """C19: start-up synchronisation from an empty, a partially and a fully
+    synchronised database, repeated, interleaved with API requests."""
+    import os_resource_classes as orc
+    import os_traits
+    rnd = s.rnd
+    rec = s.rec
+    std_c = list(orc.STANDARDS)
+    std_t = [t for t in os_traits.get_traits()]
+    unused_c = [c for c in std_c if c not in ('VCPU', 'MEMORY_MB', 'DISK_GB')]
+    # empty database
+    rec.desync(all_=True)
+    s.do(op='sync', v=39)
+    s.do(op='sync', v=39)               # idempotent
+    s.do(op='rc_post', v=39, name='CUSTOM_RC1')
+    s.mk('p1')
+    s.invs('p1', VCPU=4, CUSTOM_RC1=2)
+    s.do(op='trait_put', v=39, name='CUSTOM_T1')
+    # an older library: the newest standard names are missing (a suffix)
+    k = rnd.randint(1, 12)
+    rec.desync(classes=std_c[-k:], traits=rnd.sample(std_t, 15))
+    s.do(op='sync', v=39)
+    s.do(op='rc_list', v=39)
+    s.do(op='rc_post', v=39, name='CUSTOM_RC2')
+    s.do(op='inv_list', v=39, u='p1')
+    # an arbitrary subset is missing
+    rec.desync(classes=rnd.sample(unused_c, rnd.randint(1, 6)), traits=rnd.sample(std_t, 40))
+    s.do(op='sync', v=39)
+    s.do(op='sync', v=39)
+    s.do(op='rc_put', v=39, name='CUSTOM_RC3', newname='')
+    s.do(op='rc_del', v=39, name='VCPU')
+    s.do(op='trait_del', v=39, name='HW_CPU_X86_AVX')
+    s.do(op='rc_list', v=39)
+    # only the first few are there
+    rec.desync(classes=[c for c in std_c[3:] ])
+    s.do(op='sync', v=39)
+    s.do(op='rp_usages', v=39, u='p1')
+    s.do(op='rc_get', v=39, name='VCPU')
+
+
 SCENARIOS = {
+    'sync_histories': sync_histories,
     'f7_empty_write_unknown_consumer': f7_empty_write_unknown_consumer,
     'f9_unknown_provider_new_consumer': f9_unknown_provider_new_consumer,
     'reshape_moves_class': reshape_moves_class,
